@@ -47,7 +47,7 @@ PROPS = {
                 technique="whole-view postconditions of the conversions + bounded exhaustive order-1 arc subsets"),
     "C15": dict(title="String big-number arithmetic equals integer arithmetic", level="proof", bounded=["C15"], design="8/C15",
                 proof=["dsw.operation.calculus_addition", "dsw.operation.calculus_subtraction", "dsw.operation.calculus_multiplication",
-                       "dsw.operation.calculus_division"],
+                       "dsw.operation.calculus_division", "lemma.pv_store_frame", "lemma.pv_leading_zeros"],
                 explanation="Contracts on the four real calculus_* functions: for canon(number) and every operand digit (case-split 0..9; division 1..9; "
                             "subtraction under dval(number) >= digit) the result is canonical and its value is the exact integer result; loop "
                             "invariants over prefix values, ghost carry arrays, left-to-right induction as ghost loops; exception freedom of every "
@@ -57,8 +57,26 @@ PROPS = {
                 note="Trusted: pyvc's encoding of Python (DESIGN 2); lemmas pv_store_frame, pv_leading_zeros (proved by pyvc as ghost-loop lemmas, "
                      "see contracts/lemmas.py); bounded tier is an additional cross-reading, not part of the claim.",
                 technique="loop invariants over prefix values on the real calculus_* functions, VCs discharged by z3"),
-    "C16": dict(title="Bit / number / DNA conversions are exact inverses", level="other", bounded=["C16"], design="8/C16",
-                explanation="bit_to_number/number_to_bit/dna_to_number/number_to_dna.",
+    "C16": dict(title="Bit / number / DNA conversions are exact inverses", level="proof", bounded=["C16"], design="8/C16",
+                proof=["dsw.operation.bit_to_number#str", "dsw.operation.bit_to_number#int", "dsw.operation.number_to_bit#str",
+                       "dsw.operation.number_to_bit#int", "dsw.operation.dna_to_number#str", "dsw.operation.dna_to_number#int",
+                       "dsw.operation.number_to_dna#str", "dsw.operation.number_to_dna#int",
+                       "dsw.operation.calculus_addition", "dsw.operation.calculus_multiplication", "dsw.operation.calculus_division",
+                       "harness.c16_bits_roundtrip_str", "harness.c16_bits_roundtrip_int", "harness.c16_bits_paths_agree",
+                       "harness.c16_number_bits_back", "harness.c16_bits_left_padding", "harness.c16_dna_roundtrip_str",
+                       "harness.c16_dna_roundtrip_int", "harness.c16_dna_paths_agree", "harness.c16_number_dna_back",
+                       "harness.c16_dna_left_padding",
+                       "lemma.pv_store_frame", "lemma.pv_leading_zeros", "lemma.pv_ext", "lemma.pv_zero", "lemma.pv_positive",
+                       "lemma.pv_bound", "lemma.ipow_mono", "lemma.pv_inj"],
+                explanation="Contracts on the real bit_to_number / number_to_bit / dna_to_number / number_to_dna (string and integer paths as "
+                            "separate contract variants selected by the static type of the argument): value of the result = val2 / val4 of the "
+                            "input, fixed width, exception freedom, ValueError exactly on a foreign nucleotide; the property itself is ten client "
+                            "harnesses (round trips on both paths, path agreement, conversion back, left padding) verified against those "
+                            "contracts with proved lemmas (prefix-value extensionality, zero prefix, bound, injectivity of fixed-width rendering).",
+                claim="Deductive: all obligations of the four conversion functions (8 contract variants), of the calculus_* callees, of the ten "
+                      "property harnesses and of the eight lemmas are discharged - bit arrays / DNA strings / numbers of every length, no bound.",
+                note="Trusted: pyvc's encoding of Python (DESIGN 2); codes_of point-wise definition (+ its store consequence). Input type "
+                     "of bit arrays: list or 1-D int array of 0/1 (numpy int64 treated as mathematical integers).",
                 technique="Horner-loop invariants + round-trip harness lemmas, VCs discharged by z3"),
     "C18": dict(title="Shuffle tables are reproducible per-vertex permutations", level="other", bounded=["C18"], design="8/C18",
                 explanation="create_random_shuffles and the induced digit map.",
